@@ -388,8 +388,18 @@ for _n in ('power_down', 'power_up', 'power_cycle', 'hard_reset', 'diagnostic_in
 _op('get_system_boot_options', 'boot', True,
     lambda r: _T(r.choice([0, 1, 2, 3, 4, 5, 5, 6, 7, g_bits(7)(r)]), r.choice([0, 0, 1, 2, g_byte(r)]), r.choice([0, 0, g_byte(r)])),
     lambda ip, t: ip.get_system_boot_options(*_i(t)), c_hex, ['mut:boot', 'set_system_boot_options', 'set_boot_options'])
-_op('set_system_boot_options', 'boot', False,
-    lambda r: _T(r.choice([0, 1, 2, 3, 4, 5, 5, 6, 7, g_bits(7)(r)]), lean.hexs(g_bytes(r, 1, 9)), r.randrange(2)),
+def g_set_boot(r):
+    sel = r.choice([0, 1, 2, 3, 4, 5, 5, 6, 7, g_bits(7)(r)])
+    # parameter 5 (boot flags) carries at least its two flag bytes (InRange of Props/C07.lean)
+    return _T(sel, lean.hexs(g_bytes(r, 2 if sel == 5 else 1, 9)), r.randrange(2))
+
+
+def g_set_lan(r):
+    sel = r.choice([0, 3, 4, 5, 6, 12, 16, 20, g_byte(r)])
+    return _T(g_chan(r), sel, lean.hexs(g_bytes(r, 2 if sel == 20 else 1, 18)))
+
+
+_op('set_system_boot_options', 'boot', False, g_set_boot,
     lambda ip, t: ip.set_system_boot_options(int(t[0]), bytearray(lean.unhex(t[1])), int(t[2])), c_none)
 _op('get_boot_mode', 'boot', True, lambda r: [], lambda ip, t: ip.get_boot_mode(), c_boot_mode, ['mut:boot', 'set_boot_options'])
 _op('get_boot_persistency', 'boot', True, lambda r: [], lambda ip, t: ip.get_boot_persistency(), c_bool, ['mut:boot', 'set_boot_options'])
@@ -400,8 +410,7 @@ _op('set_boot_options', 'boot', False, lambda r: _T(r.randrange(12), r.randrange
 _op('get_lan_config_param', 'lan', True,
     lambda r: _T(g_chan(r), r.choice([0, 3, 4, 5, 6, 12, 16, 20, g_byte(r)]), r.choice([0, 0, g_byte(r)]), r.choice([0, 0, g_byte(r)]), 1 if r.random() < 0.1 else 0),
     lambda ip, t: ip.get_lan_config_param(*_i(t)), c_hex, ['mut:lan', 'set_lan_config_param'])
-_op('set_lan_config_param', 'lan', False,
-    lambda r: _T(g_chan(r), r.choice([0, 3, 4, 5, 6, 12, 16, 20, g_byte(r)]), lean.hexs(g_bytes(r, 1, 18))),
+_op('set_lan_config_param', 'lan', False, g_set_lan,
     lambda ip, t: ip.set_lan_config_param(int(t[0]), int(t[1]), bytearray(lean.unhex(t[2]))), c_none)
 _op('get_ip_address', 'lan', True, lambda r: _T(g_chan(r)), lambda ip, t: ip.get_ip_address(int(t[0])), c_str, ['mut:lan', 'set_ip_address'])
 _op('set_ip_address', 'lan', False, lambda r: _T(lean.hexs(g_bytes(r, 4, 4)), g_chan(r)),
@@ -784,6 +793,16 @@ def directed_histories(rng):
     for ctors in (('Ipmi', 'Ipmi'), ('Ipmi', 'create_connection'), ('Ipmi_none', 'Ipmi'), ('Ipmi_session', 'Ipmi_session')):
         H([{'conn': 0, 'open': 1}, C('get_device_id', conn=0), {'conn': 1, 'open': 1}, C('get_device_id', conn=1), C('get_device_id', conn=0)],
           conns=[{'bmc': 0, 'ctor': ctors[0]}, {'bmc': 1, 'ctor': ctors[1]}], nb=2, session_based=True)
+    # how oracle values look through the API: reserved user id (CCh), power type > 3 (CCh), reserved boot
+    # selector / IP source code (KeyError)
+    H([C('get_username', 0), C('set_username', 0, lean.hexs(b'ab')), C('enable_user', 0), C('get_user_access', 0, 1),
+       C('set_user_password', 0, lean.hexs(b'pw')), C('get_username', 2)])
+    for ty in (3, 4, 255):
+        H([C('get_power_level', 1, ty)])
+    for code in (10, 12, 13, 14):
+        H([C('set_system_boot_options', 5, lean.hexs(bytes([0x80, code << 2, 0, 0, 0])), 0), C('get_boot_device'), C('get_boot_mode')])
+    for src in (5, 15, 0x14):
+        H([C('set_lan_config_param', 1, 4, '%02x' % src), C('get_ip_source', 1)])
     # sensors: same number on every LUN
     for lun in range(4):
         H([C('get_sensor_reading', 1, lun), C('get_sensor_thresholds', 1, lun), C('set_sensor_thresholds', 1, lun, 1, 2, 3, 4, 5, 6),
@@ -918,10 +937,20 @@ def _report(ctx, drv, hist, out, modelled, earlier):
 
 def run(ctx):
     drv = ctx.driver('drv_c07')
-    modelled = set(drv.ask('ops').split())
-    if '*' in modelled:
-        modelled = set(OPS)
+    # an operation is modelled when the driver maps its name and arguments to a `Spec.Bmc.Call`
+    prng = ctx.rng('c07-probe')
+    modelled = set(n for n in sorted(OPS)
+                   if drv.ask('modelreq - %s' % ' '.join([n] + OPS[n].gen(prng))) != 'bad-op')
     ctx.extra['modelled_ops'] = sorted(modelled)
+    # `model_refines_oracle` / `history_refines` quantify over the sum type Spec.Bmc.Call; the driver's `ops`
+    # command lists the operation names its parser maps into that type, so every modelled operation is a
+    # case of the theorems - provided they were built and audited in this run
+    generic = ['PyIpmi.Props.C07.model_refines_oracle', 'PyIpmi.Props.C07.history_refines',
+               'PyIpmi.Props.C07.read_after_history', 'PyIpmi.Props.C07.wf_invariant']
+    proved = sorted(modelled) if all(g in ctx.theorems for g in generic) and not ctx.broken else []
+    ctx.extra['proved_ops'] = proved
+    ctx.extra['modelled_not_proved_ops'] = sorted(set(modelled) - set(proved))
+    ctx.extra['exercised_only_ops'] = sorted((set(OPS) | {'open'}) - set(modelled))
     ctx.extra['exercised_ops'] = sorted(OPS) + ['open']
     allops = public_ops()
     ctx.extra['all_public_ops'] = allops
@@ -981,7 +1010,7 @@ def search(ctx):
     """A tie broke (translator / table theorem / model disagreement) and the history run found no
     violating input: run directed histories on the families the breakage names."""
     drv = ctx.driver('drv_c07')
-    modelled = set(drv.ask('ops').split())
+    modelled = set(OPS)
     rng = ctx.rng('c07-search')
     fams = set()
     for d in ctx.disagreements:
